@@ -296,6 +296,13 @@ func evkLeaf(c *engine.Chooser, name string, k cfg) {
 		c.Fail(sig+"/"+fn+"/row-not-copied", "a key row (digit counts %v) is not the aggregated share's / the reference polynomial's row", digits)
 		return
 	}
+	if inst == 0 && hist == 0 && complete {
+		if ov := mp.Overlap([]interface{}{"key", key}, []interface{}{"aggregated share", final, "crp", &crpVal}); ov != "" {
+			c.Fail(sig+"/"+fn+"/output-aliases-input", "%s", ov)
+			return
+		}
+		c.Cover("alias", "key-vs-inputs-and-callee")
+	}
 	if key.BaseTwoDecomposition != k.b2 {
 		c.Fail(sig+"/"+fn+"/wrong-base2", "key BaseTwoDecomposition=%d, want %d", key.BaseTwoDecomposition, k.b2)
 		return
